@@ -477,6 +477,79 @@ static void run_history(const History& h, vr::Ctx& ctx, uint64_t& steps)
 
 static const uint64_t kBlock = 16;
 
+// ---- connection bursts: n clients connect while the worker does not run; the acceptor takes them all, then the worker
+// wakes up once for the whole lot. Every one of them must be announced, served, told of its disconnection and released
+// (sizes around powers of two: internal batch sizes and backlog constants are of that kind) ------------------------
+static const int kBursts[] = { 1, 2, 63, 64, 65, 127, 128, 129, 255, 256, 257 };
+static void run_burst(int n, vr::Ctx& ctx, uint64_t& steps)
+{
+    gLog.clear();
+    sim::Server srv;
+    auto handler = Http::make_handler<RecHandler>();
+    auto opts    = Http::Endpoint::options().flags(Tcp::Options::ReuseAddr | Tcp::Options::NoDelay).maxRequestSize(4096).headerTimeout(std::chrono::seconds(60)).bodyTimeout(std::chrono::seconds(60));
+    srv.start(handler, opts, 1);
+    steps += sim::settle();
+    size_t baseline = sim::list_fds().size();
+    std::string d   = "{\"burst\":" + std::to_string(n) + ",";
+    {
+        std::vector<std::unique_ptr<sim::ClientConn>> cl;
+        for (int i = 0; i < n; ++i)
+        {
+            cl.emplace_back(new sim::ClientConn());
+            if (!cl.back()->connect_to(srv.port))
+                throw sim::HarnessError { "burst: connect failed" };
+            // only the acceptor runs: the connections pile up in the worker's queue
+            sim::await_readiness(20);
+            for (int k = 0; k < 4 && sim::actor_ready(0); ++k)
+            {
+                sim::step_actor(0);
+                ++steps;
+            }
+        }
+        sim::await_readiness();
+        steps += sim::settle(4000);
+        size_t conns = 0;
+        for (auto& e : gLog)
+            conns += e.kind == E_CONN;
+        if ((int)conns != n)
+            ctx.violation("c08:burst:accepted-connections-not-announced-to-the-handler", d + "\"announced\":" + std::to_string(conns) + "}");
+        for (auto& c : cl)
+            c->send_bytes(kReqA + kReqB);
+        sim::await_readiness();
+        steps += sim::settle(8000);
+        int answered = 0;
+        for (auto& c : cl)
+        {
+            c->pump();
+            answered += c->received.compare(0, 12, "HTTP/1.1 200") == 0;
+        }
+        if (answered != n)
+            ctx.violation("c08:burst:connections-not-served", d + "\"answered\":" + std::to_string(answered) + "}");
+        for (auto& c : cl)
+            c->close_orderly();
+        sim::await_readiness();
+        steps += sim::settle(8000);
+    }
+    size_t discs = 0;
+    for (auto& e : gLog)
+        discs += e.kind == E_DISC;
+    size_t peers = 0;
+    for (auto& t : srv.transports())
+        peers += t->peers.size();
+    size_t fdsNow = sim::list_fds().size();
+    if ((int)discs != n)
+        ctx.violation("c08:burst:disconnections-not-told", d + "\"told\":" + std::to_string(discs) + "}");
+    if (peers)
+        ctx.violation("c08:peers-left-after-all-clients-gone", d + "\"peers\":" + std::to_string(peers) + "}");
+    if (fdsNow != baseline)
+        ctx.violation(fdsNow > baseline ? "c08:descriptors-leaked" : "c08:descriptors-below-baseline", d + "\"now\":" + std::to_string(fdsNow) + ",\"baseline\":" + std::to_string(baseline) + "}");
+    if (!srv.stop())
+        ctx.violation("c08:endpoint-threads-did-not-terminate-on-shutdown", d + "\"x\":0}");
+    ctx.outcome("burst served");
+    ctx.state(vr::hash_str("burst" + std::to_string(n)));
+    ctx.nontrivial(vr::hash_str("burst" + std::to_string(n)));
+}
+
 int main(int argc, char** argv)
 {
     vr::Options opt = vr::parse_args(argc, argv);
@@ -534,9 +607,32 @@ int main(int argc, char** argv)
             printf("  %s\n", hist_str(gHistories[i]).c_str());
         return 0;
     }
-    uint64_t ncases = (gHistories.size() + kBlock - 1) / kBlock;
+    static uint64_t nHist;
+    static bool bursts;
+    nHist           = (gHistories.size() + kBlock - 1) / kBlock;
+    bursts          = !gFaults && gServeFile.empty() && gHandlerTimeoutMs == 0 && !opt.kv.count("history"); // (plain part only)
+    uint64_t ncases = nHist + (bursts ? sizeof kBursts / sizeof kBursts[0] : 0);
     return vr::run(opt, ncases, [](uint64_t idx, vr::Ctx& ctx) {
         uint64_t steps = 0, execs = 0;
+        if (idx >= nHist)
+        {
+            int n = kBursts[idx - nHist];
+            ctx.note("burst of " + std::to_string(n) + " connections");
+            try
+            {
+                run_burst(n, ctx, steps);
+            }
+            catch (const sim::HarnessError& e)
+            {
+                ctx.violation("c08:harness:" + e.what.substr(0, 40), "{\"burst\":" + std::to_string(n) + "}");
+                _exit(77);
+            }
+            ctx.poll_reports();
+            ctx.count("executions", 1);
+            ctx.count("transitions", steps);
+            ctx.sample("{\"burst\":" + std::to_string(n) + "}");
+            return;
+        }
         for (uint64_t i = idx * kBlock; i < (idx + 1) * kBlock && i < gHistories.size(); ++i)
         {
             ctx.note("history " + hist_str(gHistories[i]));
